@@ -66,6 +66,9 @@ def gen_case(rng):
         events.append({"kind": "target_removal", "k": rng.randrange(1, total + 1), "shift": 0})
     if estimation and rng.random() < 0.4:
         events.append({"kind": "impulse", "k": rng.randrange(1, total + 1), "shift": 0})
+    if estimation and rng.random() < 0.35:
+        # a sensor whose clock is off for a while: what it observes is still recorded at the scenario's epochs
+        events.append({"kind": "time_bias", "k": rng.randrange(0, max(1, total - 1)), "shift": 1, "len": rng.randrange(1, total + 1), "bias": rng.choice([0.5, -0.5, 1.0])})
     second_engine = rng.random() < 0.3  # a second tasking engine that shares the first target (one estimate agent serves both)
     return {"kind": "audit", "second_engine": second_engine, "net": net, "out": out, "plan": plan, "span_steps": span_steps, "estimation": estimation, "events": events}
 
@@ -88,6 +91,10 @@ def build_cfg(case):
         elif e["kind"] == "impulse":
             evs.append({"scope": "agent_propagation", "scope_instance_id": net["targets"][0]["id"], "start_time": sk.iso(t), "event_type": "impulse",
                         "thrust_vector": [0.0, 0.02, 0.0], "thrust_frame": "ntw", "planned": False})
+        elif e["kind"] == "time_bias":
+            for sdesc in (net["sensors"] if e.get("all") else net["sensors"][:1]):
+                evs.append({"scope": "observation_generation", "scope_instance_id": sdesc["id"], "start_time": sk.iso(t),
+                            "end_time": sk.iso(t + timedelta(seconds=e["len"] * net["step"])), "event_type": "sensor_time_bias", "applied_bias": e["bias"]})
     cfg = netkit.net_cfg(net, truth_only=not case["estimation"], output_step=case["out"], events=evs)
     cfg["time"]["stop_timestamp"] = sk.iso(start + timedelta(seconds=case["span_steps"] * net["step"]))
     if case.get("second_engine"):
@@ -373,6 +380,14 @@ def run(ctx):
         if ctx.time_left() < 12:
             break
         case = gen_case(rng)
+        if i == 1:
+            # once per shard: every sensor's clock is off for the whole run, with estimation (and therefore observations) on
+            for _ in range(20):
+                if case["estimation"]:
+                    break
+                case = gen_case(rng)
+            case["events"] = [e_ for e_ in case["events"] if e_["kind"] != "time_bias"] + [{"kind": "time_bias", "k": 0, "shift": 1, "len": sum(case["plan"]) + 2, "bias": rng.choice([0.5, -0.5]), "all": True}]
+            ctx.count("cases_with_all_sensor_clocks_biased")
         nout = eval_case(ctx, case)
         ctx.case(("a", case["net"]["start"], case["net"]["seed"], tuple(case["plan"]), case["out"]), nontrivial=nout >= 2,
                  sample={"physics": case["net"]["step"], "output": case["out"], "plan": case["plan"], "span_steps": case["span_steps"], "estimation": case["estimation"],
